@@ -479,7 +479,11 @@ func (loc *Location) getActionFunc(ctx *Context, bs Bindings, a Action) (func() 
 		m["opts"] = a.Opts
 
 		if a.Subvars {
-			if m["code"], err = SubstituteBindings(ctx, a.Code.(string), bs); nil != err {
+			code, ok := a.Code.(string)
+			if !ok {
+				return nil, NewSyntaxError(fmt.Sprintf("can't substitute variables in code %#v (%T)", a.Code, a.Code))
+			}
+			if m["code"], err = SubstituteBindings(ctx, code, bs); nil != err {
 				return nil, NewSyntaxError(err.Error())
 			}
 		} else {
